@@ -32,6 +32,10 @@ def expand_source_blocks(
 
     root = sd.root()
 
+    # Nodes expanded by earlier calls. Their successors were not selected by this
+    # procedure, hence the search has to continue through all of them.
+    expanded_before: set[int] = set(sd.expanded_ids())
+
     current_level: set[int] = set([root])
     next_level: set[int] = set()
 
@@ -49,7 +53,11 @@ def expand_source_blocks(
 
         for node in sorted(current_level):  # Sorted for determinism
             if sd.node_data(node)["expanded"]:
-                # We re-discovered a previously expanded node.
+                if node in expanded_before:
+                    # The node was expanded before this call: continue below it.
+                    expanded_before.discard(node)
+                    next_level = next_level | set(sd.node_successors(node))
+                # Otherwise, we re-discovered a previously expanded node.
                 continue
 
             # Only continue if the succession diagram isn't too large.
